@@ -373,7 +373,12 @@ impl Scenario for Buyback {
         let faults = run % 2 == 1;
         let twins = focus == "C19" || run % 16 == 7;
         let n_tokens = r.usize(1, 3);
-        let n_users = r.usize(2, 6);
+        // "exact shares" plans: equal GT holdings for 3 or 6 claimants and bank balances that are exact
+        // multiples of the number of claimants, so that balance * gt / remaining is an integer while
+        // gt / remaining is a non-terminating decimal (the boundary between floor-of-product and
+        // product-of-floors).
+        let exact = run % 5 == 2;
+        let n_users = if exact { *r.pick(&[3usize, 6, 3]) } else { r.usize(2, 6) };
         let long_tail = match tier {
             Tier::Quick => 12,
             Tier::Thorough => 8,
@@ -430,19 +435,30 @@ impl Scenario for Buyback {
             let mut seg: Vec<Step> = vec![];
             seg.push(st(Op::PrepareVault));
             seg.push(st(Op::PrepareBank { back: 0, signer: Actor::Keeper }));
-            let n_ops = if g.chance(1, long_tail) { g.usize(25, 70) } else { g.usize(4, 22) };
+            let n_ops = if exact { g.usize(2, 6) } else if g.chance(1, long_tail) { g.usize(25, 70) } else { g.usize(4, 22) };
             let mut requested: Vec<bool> = vec![false; n_users];
             // make sure there is something to exchange and to pay out in most rounds
             let mut body: Vec<Op> = vec![];
+            let equal_mint = g.log_u64(max_mint).max(1);
             for u in 0..n_users {
-                if g.chance(4, 5) {
+                if exact {
+                    body.push(Op::MintGt { user: u, amount: equal_mint });
+                } else if g.chance(4, 5) {
                     let a = g.log_u64(max_mint).max(1);
                     body.push(Op::MintGt { user: u, amount: a });
                 }
             }
             for _ in 0..n_ops {
                 let k = g.below(100);
-                let op = if k < 18 {
+                let op = if exact {
+                    if k < 80 {
+                        // a multiple of 100 * n_users: the bank's share stays a multiple of n_users for any whole-percent GT factor
+                        let amount = 100 * n_users as u64 * 10u64.pow(g.range(0, 8) as u32) * g.range(1, 99);
+                        Op::Deposit { token: g.usize(0, n_tokens - 1), amount, signer: Actor::Keeper, cpi_fail: 0 }
+                    } else {
+                        Op::Advance { secs: g.range_i64(0, 600) }
+                    }
+                } else if k < 18 {
                     Op::MintGt { user: g.usize(0, n_users - 1), amount: g.log_u64(max_mint) }
                 } else if k < 42 {
                     Op::Request { user: g.usize(0, n_users - 1), back: 0, amount: 0 }
@@ -506,7 +522,7 @@ impl Scenario for Buyback {
             }
             // most holders do request an exchange at some point of the round
             for u in 0..n_users {
-                if g.chance(3, 4) {
+                if exact || g.chance(3, 4) {
                     let at = g.usize(n_users.min(body.len()), body.len());
                     body.insert(at, Op::Request { user: u, back: 0, amount: 0 });
                 }
@@ -517,7 +533,7 @@ impl Scenario for Buyback {
                     Op::MintGt { user, amount } => held[*user] = held[*user].saturating_add(*amount),
                     Op::Request { user, amount, .. } => {
                         let h = held[*user];
-                        let a = match g.below(16) {
+                        let a = match if exact { 2 } else { g.below(16) } {
                             0 => h.saturating_add(g.range(1, 1000)), // more than held: must fail
                             1 => 0,
                             2 | 3 | 4 => h,
